@@ -195,6 +195,7 @@ fn server_bases(tier: Tier) -> Vec<SCfg> {
                             eof_at_end: true,
                             route,
                             burst: false,
+                            reuse_after_end: false,
                             dup_deadline_ms: 10_000,
                         });
                     }
